@@ -734,6 +734,40 @@ func injectorNameForms(name string, kind int) *spec.Spec {
 	return b.s
 }
 
+// perEnvironmentBinds: two injectors (production / development), each built
+// from its own named set; both sets bind the same interface to the same
+// implementation type, each through the constructor listed in that very set,
+// and a third injector takes the implementation from an injector-level
+// provider. What one list says about "the provider of *PgRepo" must not reach
+// the lists migrated after it (in either order: the sets are written
+// dev-first in variant 1).
+func perEnvironmentBinds(name string, variant int) *spec.Spec {
+	b := newBuilder(name)
+	cfg := b.nstr("Dsn", "")
+	repoI := b.iface("Repo")
+	pg := b.typ(&spec.Type{Kind: spec.KStruct, Name: "PgRepo", Impl: []int{repoI}, PtrRecv: true})
+	ppg := b.ptr(pg)
+	svc := b.ptr(b.strct("Service", ""))
+	prod := b.fn("ProvideProdRepo", "", []int{cfg}, []int{ppg}, false, false)
+	dev := b.fn("ProvideDevRepo", "", []int{cfg}, []int{ppg}, false, variant == 1)
+	test := b.fn("ProvideTestRepo", "", []int{cfg}, []int{ppg}, false, false)
+	for _, p := range []int{prod, dev, test} {
+		b.s.Provs[p].Binds = []int{repoI}
+	}
+	ns := b.fn("NewService", "", []int{repoI}, []int{svc}, false, false)
+	order := [][2]interface{}{{"InitProd", prod}, {"InitDev", dev}, {"InitTest", test}}
+	if variant == 1 {
+		order[0], order[1] = order[1], order[0]
+	}
+	for _, o := range order {
+		b.inject(o[0].(string), svc, o[1].(int), ns)
+	}
+	b.s.WireAllInSets = true
+	b.s.WireBindsStay = true
+	b.s.Features = append(b.s.Features, "same-implementation-bound-in-several-sets-each-with-its-own-constructor")
+	return b.s
+}
+
 // allInvocationModes makes what a corpus program exercises independent of its
 // position in the list: the program itself is generated by one run over all
 // its files; a copy "…v" by one run per file (programs with several files);
@@ -769,7 +803,7 @@ func renamed(s *spec.Spec, name string) *spec.Spec {
 func corpusSpecs(prop string) []*spec.Spec {
 	switch prop {
 	case "C13":
-		return []*spec.Spec{twinConfigs("k13a", false), twinConfigs("k13b", true), sameNamedPackages("k13c"), structOfSameNamedPackage("k13s")}
+		return []*spec.Spec{twinConfigs("k13a", false), twinConfigs("k13b", true), sameNamedPackages("k13c"), structOfSameNamedPackage("k13s"), perEnvironmentBinds("k13e", 0), perEnvironmentBinds("k13f", 1)}
 	case "C14":
 		h := sameNamedPackages("k14h")
 		// an input-free provider in the main package for the local helper to wrap
@@ -781,7 +815,7 @@ func corpusSpecs(prop string) []*spec.Spec {
 		h.Injectors[0].Items = append(h.Injectors[0].Items, spec.Item{Prov: pl})
 		h.WireLocalHelper = true
 		h.Features = append(h.Features, "provider-declared-in-the-wire-file")
-		return []*spec.Spec{twinConfigs("k14a", false), twinConfigs("k14b", true), sameNamedPackages("k14c"), h, sameLocalNameInTwoWireFiles("k14v"), localNameEqualsForeignPackage("k14n"), structOfSameNamedPackage("k14s")}
+		return []*spec.Spec{twinConfigs("k14a", false), twinConfigs("k14b", true), sameNamedPackages("k14c"), h, sameLocalNameInTwoWireFiles("k14v"), localNameEqualsForeignPackage("k14n"), structOfSameNamedPackage("k14s"), perEnvironmentBinds("k14e", 0)}
 	case "C04", "C12":
 		var fs []*spec.Spec
 		for k := 0; k < 4; k++ {
@@ -808,7 +842,7 @@ func corpusSpecs(prop string) []*spec.Spec {
 				fs = append(fs, unexportedForeign(fmt.Sprintf("ku04v%d", v), v))
 			}
 		}
-		return allInvocationModes(append(fs, append([]*spec.Spec{twinConfigs("k"+prop[1:]+"a", false), sameNamedPackages("k" + prop[1:] + "c"), foreignAliasSecondFile("k" + prop[1:] + "f")}, keywordSweepSpecs("kw"+prop[1:])...)...))
+		return append(allInvocationModes(append(fs, append([]*spec.Spec{twinConfigs("k"+prop[1:]+"a", false), sameNamedPackages("k" + prop[1:] + "c"), foreignAliasSecondFile("k" + prop[1:] + "f")}, keywordSweepSpecs("kw"+prop[1:])...)...)), allocatorSequenceSpecs("ky"+prop[1:])...)
 	case "C09":
 		return []*spec.Spec{sameNamedPackages("k09c"), twinConfigs("k09a", false), spelledTwoWays("kt09s", false), spelledTwoWays("kt09a", true), suffixNamedFiles("kz09s", false), suffixNamedFiles("kz09a", true), aliasDeclaredFields("ka09s", false), aliasDeclaredFields("ka09a", true), setReferenceForms("ks09p", 0, false), setReferenceForms("ks09q", 0, true), setReferenceForms("ks09x", 1, false), setReferenceForms("ks09y", 1, true)}
 	case "C02", "C01", "C10", "C11":
@@ -856,6 +890,72 @@ func corpusSpecs(prop string) []*spec.Spec {
 		return fs
 	}
 	return nil
+}
+
+// allocatorSequenceSpecs: request histories for the name allocator. One
+// injector per program whose providers form a chain over the four types
+// Foo0, Foo, *Foo and Foo1 (all 24 orders, so every order in which the base
+// names foo0, foo, foo, foo1 can be asked for occurs), and the same with a
+// package-level variable foo0 instead of the type Foo0 (6 orders). Whatever
+// the history, a name handed out once must stay taken.
+func allocatorSequenceSpecs(prefix string) []*spec.Spec {
+	var out []*spec.Spec
+	var perms func(rest []string, cur []string, f func([]string))
+	perms = func(rest []string, cur []string, f func([]string)) {
+		if len(rest) == 0 {
+			f(append([]string{}, cur...))
+			return
+		}
+		for i := range rest {
+			nr := append(append([]string{}, rest[:i]...), rest[i+1:]...)
+			perms(nr, append(cur, rest[i]), f)
+		}
+	}
+	build := func(name string, order []string, pkgLevel bool) {
+		b := newBuilder(name)
+		foo := -1
+		prev := -1
+		var provs []int
+		for k, n := range order {
+			var t int
+			switch n {
+			case "*Foo":
+				if foo < 0 {
+					foo = b.strct("Foo", "")
+				}
+				t = b.ptr(foo)
+			case "Foo":
+				if foo < 0 {
+					foo = b.strct("Foo", "")
+				}
+				t = foo
+			default:
+				t = b.strct(n, "")
+			}
+			var params []int
+			if prev >= 0 {
+				params = []int{prev}
+			}
+			provs = append(provs, b.fn(fmt.Sprintf("Step%d", k), "", params, []int{t}, false, k == 1))
+			prev = t
+		}
+		b.inject("InitializeChain", prev, provs...)
+		if pkgLevel {
+			b.s.ExtraDecl += "var foo0 = 0\n"
+		}
+		b.s.Features = append(b.s.Features, "allocator-request-history")
+		out = append(out, b.s)
+	}
+	i := 0
+	perms([]string{"Foo0", "Foo", "*Foo", "Foo1"}, nil, func(o []string) {
+		build(fmt.Sprintf("%sq%02d", prefix, i), o, false)
+		i++
+	})
+	perms([]string{"Foo", "*Foo", "Foo1"}, nil, func(o []string) {
+		build(fmt.Sprintf("%sq%02d", prefix, i), o, true)
+		i++
+	})
+	return out
 }
 
 // keywordSweepSpecs: every Go keyword and predeclared identifier, capitalised,
